@@ -109,7 +109,7 @@ BOUNDS = {
                 "row, 9x2 column) under ALL ten dyadic pixel-scale pairs - the five above plus (0.125,4), (8,8), (1,0.0625), (1.5,0.75), (1024,0.5) - "
                 "cycling kernels (3,3)/(5,5)/(5,3)/(3,7), sub sizes 2/4/3, pads (+2,+1)/(+3,+3)/(0,+2)/(+4,0); (2) ALL 4095 masks of 3x4 (scales "
                 "(0.5,2)) and of 4x3 (scales (0.25,0.5), kernel (3,5), sub 3); (3) datasets on all 3x3 and 2x4 masks and on the hard masks with "
-                ">= 2 rows; rectangular (meshes up to 7x7, 4x5 on all 3x3 masks) and Delaunay mappers on the hard masks and all 3x3 masks; shared "
+                ">= 2 rows; rectangular (meshes up to 7x7, 4x4 on all 3x3 masks) and Delaunay mappers on the hard masks and all 3x3 masks; shared "
                 "option objects on the hard masks and all 3x3 / 3x2 masks; overlay meshes 4x4 / 2x5 / 5x1 / 3x3 on the hard masks, 2x2 on all 3x3 "
                 "masks (unbounded) and 2x3 on all 2x4 masks (|o| <= 0.75 pixel); (4) translated points: 3 unbounded points for shapes 7x11, 1x1, 2x13, "
                 "10x10, 9x4 under all ten scale pairs, class level for 4x4, 5x3, 1x6, 3x5 and two points on 2x2; radial projections for ten more "
@@ -1198,7 +1198,7 @@ def _deeper_cases():
                                     "mesh_shape": [[3, 3], [5, 4], [3, 6], [7, 7]][n % 4]}))
         out.append(("case_mapper", {"name": name, "scales": SCALES[n % 5], "kind": "delaunay" if n % 3 else "delaunay3", "sub": [1, 2, "mixed"][n % 3]}))
         out.append(("case_overlay", {"name": name, "scales": (SCALES + SCALES_MORE)[(n + 1) % 10], "shape": [[4, 4], [2, 5], [5, 1], [3, 3]][n % 4], "bound": None}))
-    out.append(("case_mapper", {"H": 3, "W": 3, "scales": [0.5, 2.0], "kind": "rectangular", "mesh_shape": [4, 5], "sub": "mixed"}, {"split": 5}))
+    out.append(("case_mapper", {"H": 3, "W": 3, "scales": [0.5, 2.0], "kind": "rectangular", "mesh_shape": [4, 4], "sub": 2}, {"split": 5}))
     out.append(("case_mapper", {"H": 3, "W": 3, "scales": [1.0, 1.0], "kind": "delaunay", "sub": 2}, {"split": 5}))
     out.append(("case_shared", {"H": 3, "W": 3, "scales": [2.0, 0.25], "sub": 3}, {"split": 6}))
     out.append(("case_shared", {"H": 3, "W": 2, "scales": [0.25, 0.5]}, {"split": 2}))
